@@ -18,7 +18,8 @@ EXPLANATION = (
     "happen before build consumes it; (WIRE) BatchAccessor::new/reads/writes, create and accessor() wire the same-named fields; "
     "(NOFETCH) BatchUncheckedWorld borrows nothing itself; (PLAN) MultiDispatcher moves its plan data into plan before the first "
     "inner dispatch; nested batches are ordinary systems of the inner builder, registered through self.add, so C01's SLOT rule "
-    "accumulates the batch accessor into the outer tables. A user controller's own manual fetches are its contract.")
+    "accumulates the batch accessor into the outer tables; every other function of the crate that makes a batch system (calls BatchControllerSystem::create) owes the same union for the very "
+    "builder it builds, with nothing getting hold of that builder between the reads of its tables and build(). A user controller's own manual fetches are its contract.")
 ASSUMPTIONS = ["a user-written BatchController fetches only what it declares as BatchSystemData"]
 TRUSTED = ["rustc nightly MIR construction", "shred-facts driver", "shredlint analyses"]
 TECHNIQUE = 'static: structured evaluation of add_batch (what each operand of BatchAccessor::new is built from, assembly order) and of fetch_all_reads/writes (three full nested traversals of the accumulating table), field wiring terms, lock-step (tables only grow), MultiDispatcher plan rule'
